@@ -61,6 +61,10 @@ CHECKS={
    ref="DESIGN.md §4 E-CTX, §5 C06",
    note="Inputs of unbounded length are covered because the state space is finite and explored completely. Trusted: the library's public admissibility predicates as the table. '(' with no pending directive is outside the sentence (C01).",
    technique=T_MC+"explicit-state BFS over the reference resolver's state graph with every transition replayed against the real scan phase (traces validated against the implementation)"),
+ "C12":dict(engine="E-DOC",
+   text="Bounded-exhaustive: ALL inheritance graphs over 2..3 / 2..4 object types (ordered base lists of 0..2 bases each: chains, several bases, shared bases, diamonds, cycles) x 3 own-property patterns per type x ALL declaration orders x 8 hosts of a further inheriting schema (request, response, headers, query, nested property, nested property of a base whose heir is declared first / last); in every accepted document every property list must equal the reference inheritance computed from the graph, base types stay as declared; 11 negative cases rejected.",
+   ref="DESIGN.md §5 C12", note="Documents rejected by the schema library (same key through two bases, cycles) are counted, not judged: the property is about accepted documents.",
+   technique=T_MC+"bounded-exhaustive enumeration of inheritance graphs x declaration orders x hosts against a reference inheritance function"),
 }
 ENGINES=[
  {"name":"E-SCAN","path":"internal/escan","serves_properties":["C14"],"kind_free_text":"explicit-state BFS over the real scanner.Next with a per-byte hook; abstract key cross-checked by second representatives"},
